@@ -87,7 +87,7 @@ func (it *recoveryIterator) next() (record, error) {
 		rec, err := it.segit.next()
 		if err == io.EOF || err == io.ErrUnexpectedEOF || err == errCorrupted {
 			// Truncate file to the last valid offset.
-			if err := it.segit.f.Truncate(int64(it.segit.offset)); err != nil {
+			if err := it.segit.f.truncate(int64(it.segit.offset)); err != nil {
 				return record{}, err
 			}
 			fi, fierr := it.segit.f.Stat()
